@@ -261,6 +261,43 @@ func implSwallow(variant string) string {
 		})
 		src = `var r = "none"; try { host(function(){ throw {toString: function(){ arm(); for(;;){} }} }); r = "returned" } catch (e) { r = "caught" } r`
 	}
+	if variant == "after-halt" {
+		// history independence: a host function that panics with the embedder's one halt value inside a script
+		// try gives the same outcome on a runtime that was halted before (by an interrupt function panicking
+		// with that very value) as on a fresh one ("later scripts run normally"; fix 0a25d04)
+		outcome := func(vm *otto.Otto) string {
+			vm.Set("exit", func(call otto.FunctionCall) otto.Value { panic(stop{7}) })
+			res := ""
+			func() {
+				defer func() {
+					if r := recover(); r != nil {
+						res = "panic:" + strings.ReplaceAll(fmt.Sprint(r), " ", "_")
+					}
+				}()
+				v, err := vm.Run(`var r = "none"; try { exit(); r = "returned" } catch (e) { r = "caught" } r`)
+				res = strings.ReplaceAll(fmt.Sprint("returned:", v, ",", err != nil), " ", "_")
+			}()
+			return res
+		}
+		fresh := outcome(otto.New())
+		first := ""
+		func() {
+			defer func() {
+				if r := recover(); r != nil {
+					first = "halted"
+				}
+			}()
+			vm.Run(spin)
+			first = "not-halted"
+		}()
+		vm.Interrupt = nil
+		after := outcome(vm)
+		same := "same-as-fresh"
+		if after != fresh {
+			same = "differs(fresh=" + fresh + ",after=" + after + ")"
+		}
+		return first + ";" + same + ";" + restTok(vm) + ";" + followTok(vm)
+	}
 	if variant == "rethrow-error" {
 		// a host function passes the failure of a call back into script on by panicking with the *otto.Error
 		// that Value.Call returned: the enclosing try catches an error of the SAME class (fce86a0)
@@ -813,7 +850,7 @@ func genC18(c *h.Ctx) {
 	for v := 0; v <= 4; v++ {
 		c.Add(fmt.Sprintf("icopy %d", v), "icopy")
 	}
-	for _, v := range []string{"0", "1", "2", "3", "closed", "tostring", "tostring-call", "rethrow-error"} {
+	for _, v := range []string{"0", "1", "2", "3", "closed", "tostring", "tostring-call", "rethrow-error", "after-halt"} {
 		c.Add("swallow "+v, "swallow")
 	}
 	maxL := c.N(12, 64)
